@@ -92,8 +92,11 @@ def query_lines(p, rng, n_filters=2, dirs=(0, 1, 2, 3), unks=(0, 1, 2, 3), flink
         while r % 5 == 2 or r % 7 == 3:
             r += 11
         return str(r)
+    def unhash():       # k % 13 == 5 : a filter callable that cannot be hashed (never cached, nothing raises)
+        r = rng.getrandbits(63)
+        return str(r - r % 13 + 5)
     masks = ["-"] + [str(rng.getrandbits(64)) for _ in range(n_filters)] + ["0", str(2 ** 64 - 1), short(), short(), short(),
-                                                                             plain(), plain(), reentrant()]
+                                                                             plain(), plain(), reentrant(), unhash()]
     out = []
     # a filter that raises (an ordinary exception, or a StopIteration: `next(it)` on an exhausted iterator) at its
     # first or second invocation: the call must propagate it, never return a partial answer
@@ -355,7 +358,7 @@ class C05(Check):
         "un-pickling restores exactly the pickled attribute dictionaries (trusted: pickle/dill)"]
 
     def witnesses(self):
-        return [("D6", W.D6), ("D7", W.D7), ("D7b", W.D7b)]
+        return [("D6", W.D6), ("D7", W.D7), ("D7b", W.D7b), ("D18", W.D18)]
 
     def audit(self, real, p, rng):
         lines = []
@@ -372,6 +375,11 @@ class C05(Check):
                 lines.append("nbrs %s 1 1 -" % v)
             for d, u, m in AUDIT_KEYS:
                 lines.append("nbrs %s %d %d %s" % (v, d, u, "-" if m == "-" else mask))
+            # a filter callable that cannot be hashed (k % 13 == 5), twice: answered, never cached, nothing raises
+            g = rng.getrandbits(62)
+            g = g - g % 13 + 5
+            lines.append("nbrs %s 1 1 %d" % (v, g))
+            lines.append("nbrs %s 1 1 %d" % (v, g))
             # two different SHORT-LIVED filter objects (k % 5 == 2) under the same other arguments, back to back
             a, b = rng.getrandbits(62), rng.getrandbits(62)
             lines.append("nbrs %s 1 1 %d" % (v, a - a % 5 + 2))
